@@ -237,7 +237,8 @@ class World:
             s = os.path.join(os.path.dirname(a), ".", os.path.basename(a)) + "/"
         elif st.startswith("ln"):
             alias, target = self.scn["symlinks"][int(st[2:] or 0)]
-            assert rel == target or rel.startswith(target + "/"), (rel, target)
+            if not (rel == target or rel.startswith(target + "/")):  # not an assert statement: workers may run under python -O
+                raise AssertionError((rel, target))
             s = self.abs(alias + rel[len(target):])
         elif st == "lncwd":
             alias, target = self.scn["symlinks"][0]
